@@ -76,6 +76,9 @@ type GenOpts struct {
 	// ForceFields returns field numbers a definition of message g must carry
 	// (if the profile has them).
 	ForceFields func(rng *Rand, g uint16) []byte
+	// Monster: chance in 1000 per definition step of a definition with up to 255 fields of up to 255
+	// bytes plus up to 255 developer fields (records of up to ~130 KB are legal).
+	Monster int
 	// ZeroFieldDefs: chance in 100 that a definition of a known message lists no profile field at all.
 	ZeroFieldDefs int
 	// ValueFor overrides the value of a scalar field (ok=false: default patterns).
@@ -225,7 +228,7 @@ func scalarPattern(rng *Rand, bt ref.BaseType) uint64 {
 	}
 }
 
-var stringPool = []string{"", "a", "Garmin", "fēnix 6", "日本語テキスト", "éàü", "Edge 1030 Plus", "x\xffy", "tab\there", "0123456789ABCDEF0123456789abcdef0123456789"}
+var stringPool = []string{"\uFFFDreplacement\uFFFD character inside a long string \uFFFD", "ab\uFFFD", "", "a", "Garmin", "fēnix 6", "日本語テキスト", "éàü", "Edge 1030 Plus", "x\xffy", "tab\there", "0123456789ABCDEF0123456789abcdef0123456789"}
 
 // GenFieldData produces wire bytes for a field with definition fd. pf may be
 // nil (unknown field).
@@ -358,11 +361,39 @@ type PlanGen struct {
 }
 
 // fileIdRecords returns the definition and data record of the leading file_id.
-func fileIdRecords(rng *Rand, ft byte, local byte, arch byte, extra bool) []ref.Record {
+func fileIdRecords(rng *Rand, ft byte, local byte, arch byte, extra bool, unknown int) []ref.Record {
 	p := Profile()
 	def := ref.Record{IsDef: true, Local: local, Arch: arch, Global: 0}
 	def.Fields = append(def.Fields, ref.FieldDef{Num: 0, Size: 1, Base: 0x00})
 	data := ref.Record{Local: local, Data: [][]byte{{ft}}}
+	if unknown > 0 && rng.Chance(unknown, 100) {
+		// the very first message of a file may carry fields the profile does not list, too
+		for k := 1 + rng.Intn(2); k > 0; k-- {
+			num := byte(100 + rng.Intn(100))
+			if p.Field(0, num) != nil {
+				continue
+			}
+			dup := false
+			for _, f := range def.Fields {
+				if f.Num == num {
+					dup = true
+				}
+			}
+			if dup {
+				continue
+			}
+			bt := ref.BaseTypes[rng.Intn(len(ref.BaseTypes))]
+			sz := bt.Size * (1 + rng.Intn(3))
+			fd := ref.FieldDef{Num: num, Size: byte(sz), Base: bt.Code}
+			if rng.Chance(1, 2) {
+				def.Fields = append([]ref.FieldDef{fd}, def.Fields...)
+				data.Data = append([][]byte{rng.Bytes(sz)}, data.Data...)
+			} else {
+				def.Fields = append(def.Fields, fd)
+				data.Data = append(data.Data, rng.Bytes(sz))
+			}
+		}
+	}
 	if extra {
 		o := &GenOpts{}
 		for _, pf := range p.ByMesg[0] {
@@ -402,7 +433,7 @@ func NewPlanGen(rng *Rand, o GenOpts) *PlanGen {
 	if rng.Chance(o.BigEndian, 100) {
 		arch = 1
 	}
-	recs := fileIdRecords(rng, o.FileType, local, arch, true)
+	recs := fileIdRecords(rng, o.FileType, local, arch, true, o.Unknown)
 	g.P.Records = append(g.P.Records, recs...)
 	d := recs[0]
 	g.defs[local] = &d
@@ -516,6 +547,21 @@ func (g *PlanGen) Define(local byte, m uint16, knownMsg bool) {
 		}
 		_ = total
 	}
+	if g.O.Monster > 0 && rng.Chance(g.O.Monster, 1000) {
+		nf := 100 + rng.Intn(156-len(def.Fields)%100)
+		for tries := 0; tries < 2000 && len(def.Fields) < nf && len(def.Fields) < 255; tries++ {
+			num := rng.Byte()
+			if used[num] || num == 253 || knownMsg && p.Field(m, num) != nil {
+				continue
+			}
+			used[num] = true
+			def.Fields = append(def.Fields, ref.FieldDef{Num: num, Size: byte(200 + rng.Intn(56)), Base: 0x0D})
+		}
+		def.HasDev = true
+		for k := 100 + rng.Intn(156); k > 0; k-- {
+			def.Dev = append(def.Dev, ref.DevDef{Num: rng.Byte(), Size: byte(200 + rng.Intn(56)), Idx: byte(rng.Intn(4))})
+		}
+	}
 	addUnknown := !knownMsg || (g.O.Unknown > 0 && rng.Chance(g.O.Unknown, 100))
 	if addUnknown {
 		n := 1 + rng.Intn(3)
@@ -550,7 +596,7 @@ func (g *PlanGen) Define(local byte, m uint16, knownMsg bool) {
 	}
 	if g.O.Unknown > 0 && rng.Chance(g.O.Unknown/2, 100) {
 		def.HasDev = true
-		for k := rng.Intn(4); k > 0; k-- {
+		for k := rng.Intn(4); k > 0 && len(def.Dev) < 255; k-- {
 			sizes := []int{0, 1, 2, 4, 8, 17, 255}
 			def.Dev = append(def.Dev, ref.DevDef{Num: rng.Byte(), Size: byte(sizes[rng.Intn(len(sizes))]), Idx: byte(rng.Intn(3))})
 		}
